@@ -111,7 +111,7 @@ prop('C09', units=['ord', 'costs', 'agg', 'bk', 'rnd'], level='proof',
      witnesses=['D2a', 'D2b', 'D2c'])
 
 prop('C10', units=['summary', 'bk', 'smd', 'drv'], level='proof',
-     technique='Verus: get_summary_range_delta_indicies (window of every later loss sale strictly after the last summarised settlement), make_simple_summary_txs (Buy reproduces balance and cost base), make_annual_gains_summary_txs (base Buy of balance + #years, one 1-share Sell per year realising that year net gain), make_summary_txs (generated rows: one Buy per affiliate still holding shares, each once, none left out - through the internal sort; kept rows re-emitted unchanged with explicit unforced superficial losses); make_aggregate_summary_txs and the summary-mode driver; Tx::to_csvtx / Tx::try_from(CsvTx) (a transaction written as a CSV row reads back as the same transaction: encoder ensures csv_encodes, decoder ensures tx_same on every encoded row, lemma_csv_row_roundtrip); theorem_simple_summary_roundtrip / theorem_summary_roundtrip / theorem_buy_block / theorem_scaled_ledgers over the ledger fold (chain) that is the postcondition of txs_to_delta_list; txs_to_csv_table (portfolio/io/tx_csv.rs, the writer of the summary file and of tx-export-convert): header = the export columns, each once, an optional one exactly when some row needs it; one record per row in order; every value under its own column (table_ok, cell_out); lemma_table_reads_back: read back by column name (the reader contract of parse_tx_csv) record i yields under every written column the trimmed text written for that field and nothing else; lemma_omitted_column: a column left out is empty in every row; theorem_written_row_reads_back: under the text hypotheses text_roundtrip_ok (what Display / to_string_min_precision write for a number, date, action word or currency code is a non-blank text that the matching parser reads back as the same value) the row parse_tx_csv reads from record i of the written table carries the same dates, action, quantities, prices, commissions, currencies, exchange rates and declared superficial loss as row i; run_acb_app_summary_to_console (unit smd): a summary that has rows is written, and the rows handed to the writer are the summary transactions in order, each as the CSV row that carries all its fields (From<Tx> for CsvTx = to_csvtx)',
+     technique='Verus: get_summary_range_delta_indicies (window of every later loss sale strictly after the last summarised settlement), make_simple_summary_txs (Buy reproduces balance and cost base), make_annual_gains_summary_txs (base Buy of balance + #years, one 1-share Sell per year realising that year net gain), make_summary_txs (generated rows: one Buy per affiliate still holding shares, each once, none left out - through the internal sort; kept rows re-emitted unchanged with explicit unforced superficial losses); make_aggregate_summary_txs and the summary-mode driver; Tx::to_csvtx / Tx::try_from(CsvTx) (a transaction written as a CSV row reads back as the same transaction: encoder ensures csv_encodes, decoder ensures tx_same on every encoded row, lemma_csv_row_roundtrip); theorem_simple_summary_roundtrip / theorem_summary_roundtrip / theorem_buy_block / theorem_scaled_ledgers over the ledger fold (chain) that is the postcondition of txs_to_delta_list; txs_to_csv_table (portfolio/io/tx_csv.rs, the writer of the summary file and of tx-export-convert): header = the export columns, each once, an optional one exactly when some row needs it; one record per row in order; every value under its own column (table_ok, cell_out); lemma_table_reads_back: read back by column name (the reader contract of parse_tx_csv) record i yields under every written column the trimmed text written for that field and nothing else; lemma_omitted_column: a column left out is empty in every row; theorem_written_row_reads_back: under the text hypotheses text_roundtrip_ok (what Display / to_string_min_precision write for a number, date, action word or currency code is a non-blank text that the matching parser reads back as the same value) the row parse_tx_csv reads from record i of the written table carries the same dates, action, quantities, prices, commissions, currencies, exchange rates and declared superficial loss as row i; write_txs_to_csv: the file written is the header record of that table followed by one record per row in order; run_acb_app_summary_to_console (unit smd): a summary that has rows is written, and the rows handed to the writer are the summary transactions in order, each as the CSV row that carries all its fields (From<Tx> for CsvTx = to_csvtx)',
      level_text='Deductive proof (Verus). Code contracts: what make_summary_txs emits, for all delta lists and dates. Round trip (plain summary), as a theorem over the ledger contract: for every history starting without holdings, every split point and every pair of accepted ledgers (full history / generated Buys followed by the later rows denying the same amounts), each later row reports the same gain, balance and cost base and the final holdings agree. Annual-gains mode: the generated rows are under contract, the round trip is not; known finding D16.',
      level_note=BK_NOTE + ' The preconditions of make_summary_txs (settlement order, superficial-loss data only on sales) are proved at its real call site for plain summaries: run_acb_app_summary_to_model -> make_aggregate_summary_txs (unit smd, from the driver\'s ledger_facts); for --summarize-annual-gains the range of years (years_ok) follows from the hypothesis of the properties on the input (calendar years 1900-2100, the uninterpreted predicate practical_input, assumed of parse_tx_csv and carried through sort, partition, split expansion and ledger by dates_from). Hypotheses of the round-trip theorem beyond the contracts: both ledgers are accepted; the re-run denies the same superficial-loss amounts on the kept rows (they are emitted explicitly, and the range contract keeps the last summarised row outside every later window); an affiliate left without shares has no cost base left.',
      not_covered=['that the re-run accepts the explicit superficial-loss amounts (validation against the recomputed value, 0.001 tolerance)', 'round trip in annual-gains mode', 'the text hypotheses themselves (text_roundtrip_ok: Display / FromStr pairs are uninterpreted functions of the value resp. the text; C11); security, memo and affiliate texts and the split ratio (presence only) in the written-file round trip; which value lands under which column, and that it is read from that column, is covered'],
